@@ -60,7 +60,7 @@ func (fr *Frame) bodyEnv(b *ssa.BasicBlock, mem Mem) *SpecEnv {
 	if fr.con != nil {
 		pkg = fr.con.PkgPath
 	} else if fr.fn.Pkg != nil {
-		pkg = fr.fn.Pkg.Pkg.Path()
+		pkg = pkgPathOf(fr.fn)
 	}
 	env := &SpecEnv{ex: fr.ex, fr: fr, pkgPath: pkg, vars: map[string]Val{}, mem: mem, old: fr.entry}
 	for i, p := range fr.fn.Params {
@@ -363,6 +363,31 @@ func (p *Program) VerifyFunc(key string) *FuncReport {
 		rep.Err = "function not found in SSA: " + key
 		return rep
 	}
+	if fn.TypeParams().Len() > 0 && len(fn.TypeArgs()) == 0 {
+		// generic function: the body is verified on one instance (the contract's `instance`
+		// clause selects it; default: the first by name); callees specific to the instance are
+		// taken by contract or inlined as usual
+		var insts []string
+		for k, g := range p.Funcs {
+			if g.Origin() == fn && g.Blocks != nil && (con == nil || con.Instance == "" || strings.Contains(shortName(k), con.Instance)) {
+				insts = append(insts, k)
+			}
+		}
+		sort.Strings(insts)
+		if len(insts) == 0 {
+			var all []string
+			for k, g := range p.Funcs {
+				if g.Origin() == fn {
+					all = append(all, shortName(k))
+				}
+			}
+			sort.Strings(all)
+			rep.Err = "generic function without a matching instance; instances: " + strings.Join(all, " ")
+			return rep
+		}
+		fn = p.Funcs[insts[0]]
+		rep.Assumed = append(rep.Assumed, "generic body verified on the instance "+shortName(insts[0])+"; other instances share the body and differ only in the element codec called")
+	}
 	rep.Pos = p.Pos(fn.Pos())
 	rep.SSAHash = ssaHash(fn)
 	if fn.Blocks == nil {
@@ -382,6 +407,7 @@ func (p *Program) VerifyFunc(key string) *FuncReport {
 	oos := map[string]bool{}
 	for _, run := range runs {
 		ex := &Exec{P: p, Unit: shortName(key), Con: con, Inlined: inl, Used: used, Trusted: trusted}
+		ex.kernelMode = isWireKernel(fn)
 		ex.split = run
 		if run.on {
 			if run.rest {
@@ -406,7 +432,7 @@ func (p *Program) VerifyFunc(key string) *FuncReport {
 		for _, o := range ex.OOS {
 			oos[o] = true
 		}
-		rep.Assumed = ex.AssumedNotes
+		rep.Assumed = append(rep.Assumed, ex.AssumedNotes...)
 	}
 	for k := range oos {
 		rep.OOS = append(rep.OOS, k)
@@ -474,7 +500,7 @@ func (ex *Exec) verifyTop(fn *ssa.Function, con *Contract) {
 	}
 	fr.params = args
 	fr.entry = mem.clone()
-	pkg := fn.Pkg.Pkg.Path()
+	pkg := pkgPathOf(fn)
 	if con != nil {
 		pkg = con.PkgPath
 	}
@@ -694,6 +720,38 @@ func (fr *Frame) backEdgeTag(lp *Loop, b *ssa.BasicBlock) string {
 	for i, s := range srcs {
 		if s == b.Index {
 			return fmt.Sprintf("#%d", i+1)
+		}
+	}
+	return ""
+}
+
+// isWireKernel: methods of types.Encoder / types.Decoder and the generic slice/pointer helpers.
+// When one of these is the unit under verification its callees are taken by contract instead
+// of the ghost-stream model (which is the trusted summary of exactly these functions).
+func isWireKernel(f *ssa.Function) bool {
+	n := f.String()
+	if f.Origin() != nil {
+		n = f.Origin().String()
+	}
+	if strings.HasPrefix(n, "(*"+typesPkg+".Decoder).") || strings.HasPrefix(n, "(*"+typesPkg+".Encoder).") {
+		return true
+	}
+	switch strings.TrimPrefix(n, typesPkg+".") {
+	case "DecodeSlice", "DecodeSliceFn", "DecodeSliceCast", "DecodePtr", "DecodePtrCast", "EncodeSlice", "EncodeSliceFn", "EncodeSliceCast", "EncodePtr", "EncodePtrCast":
+		return true
+	}
+	return false
+}
+
+func pkgPathOf(f *ssa.Function) string {
+	for f != nil {
+		if f.Pkg != nil {
+			return f.Pkg.Pkg.Path()
+		}
+		if f.Origin() != nil {
+			f = f.Origin()
+		} else {
+			f = f.Parent()
 		}
 	}
 	return ""
